@@ -75,4 +75,36 @@ theorem isPowerOfTwo_iff (i : Int) : isPowerOfTwo i = true ↔ ∃ j : Nat, i = 
     rw [hn]
     simp [bitLength, hne, Nat.log2_two_pow]
 
+/-- `n ≤ 2 * largest_power_of_two_smaller_than(n)` -/
+theorem le_two_lp2 (n : Nat) : n ≤ 2 * lp2 n := by
+  unfold lp2
+  by_cases h0 : n = 0
+  · subst h0; decide
+  · simp only [pow_log2_le n h0]
+    have hlt : n < 2 ^ (Nat.log2 n + 1) := Nat.lt_log2_self
+    rw [Nat.pow_succ] at hlt
+    split
+    · rename_i hc
+      simp only [Bool.and_eq_true, beq_iff_eq, decide_eq_true_eq] at hc
+      have h1 : 1 ≤ Nat.log2 n := by
+        rw [Nat.le_log2 h0]; omega
+      obtain ⟨k, hk⟩ : ∃ k, Nat.log2 n = k + 1 := ⟨Nat.log2 n - 1, by omega⟩
+      rw [Nat.shiftRight_eq_div_pow]
+      have h2 : 2 ^ Nat.log2 n = 2 ^ k * 2 := by rw [hk, Nat.pow_succ]
+      rw [h2] at hc ⊢
+      simp only [Nat.pow_one, Nat.mul_div_cancel _ (by omega : 0 < 2)]
+      omega
+    · omega
+
+/-- a power-of-two bound above `lp2 n` is a bound on `n` -/
+theorem le_of_lp2_lt_pow (n j : Nat) (h : lp2 n < 2 ^ j) : n ≤ 2 ^ j := by
+  obtain ⟨i, hi⟩ := lp2_pow2 n
+  rw [hi] at h
+  have hij : i < j := (Nat.pow_lt_pow_iff_right (by omega)).mp h
+  have h1 : 2 ^ (i + 1) ≤ 2 ^ j := Nat.pow_le_pow_right (by omega) (by omega)
+  have h2 := le_two_lp2 n
+  rw [hi] at h2
+  rw [Nat.pow_succ] at h1
+  omega
+
 end Util
